@@ -57,6 +57,36 @@ func storedBatch(r *rand.Rand, n int, prefix string, delta int) []*model.MDoc {
 	return docs
 }
 
+// metaSweepDocs returns documents whose stored-record META section (per stored value: uvarint field id, uvarint
+// start offset, uvarint length) has exactly the lengths 125..131, 253..259, 381..387 and 16381..16387 bytes, so
+// that the uvarint holding the meta length sits on and around its size steps and the bytes 0x80 / 0x80 0x80.
+// Field "m" gets an id < 128 (1 byte). a empty values cost 3 bytes each (offset 0), one 128-byte value costs 4
+// (2-byte length) and every empty value after it costs 4 (2-byte offset 128): T = 3a + 4(1+b).
+func metaSweepDocs(prefix string, first int) []*model.MDoc {
+	var out []*model.MDoc
+	for _, centre := range []int{128, 256, 384, 16384} {
+		for T := centre - 3; T <= centre+3; T++ {
+			a := 0
+			for (T-3*a)%4 != 0 || T-3*a < 4 {
+				a++
+			}
+			b := (T-3*a)/4 - 1
+			d := &model.MDoc{}
+			id := fmt.Sprintf("%s-%d", prefix, first+len(out))
+			d.Fields = append(d.Fields, &model.MField{N: "_id", Terms: []*model.MTerm{{T: []byte(id), F: 1}}})
+			for i := 0; i < a; i++ {
+				d.Fields = append(d.Fields, &model.MField{N: "m", St: true, V: []byte{}})
+			}
+			d.Fields = append(d.Fields, &model.MField{N: "m", St: true, V: []byte(strings.Repeat("M", 128))})
+			for i := 0; i < b; i++ {
+				d.Fields = append(d.Fields, &model.MField{N: "m", St: true, V: []byte{}})
+			}
+			out = append(out, d)
+		}
+	}
+	return out
+}
+
 func c06Segs(c *runner.Ctx) ([]*gen.Seg, string, func(), error) {
 	r := c.R
 	switch c.Idx % 3 {
@@ -64,6 +94,9 @@ func c06Segs(c *runner.Ctx) ([]*gen.Seg, string, func(), error) {
 		n := []int{129, 130, 255, 256, 257, 300, 384, 385}[r.Intn(8)]
 		delta := r.Intn(33) - 8 // -8 .. +24
 		docs := storedBatch(r, n, fmt.Sprintf("s%d", c.Idx), delta)
+		if c.Idx%6 == 0 { // records whose meta section has a length at the varint steps (127|128|129, 255|256, 383|384, 16383|16384)
+			docs = append(docs, metaSweepDocs(fmt.Sprintf("s%d", c.Idx), n)...)
+		}
 		b, err := gen.BuildSeg(docs, 1025)
 		if err != nil {
 			return nil, "controlled", func() {}, err
